@@ -1011,11 +1011,15 @@ func judgeServe(client netip.Addr, internal, rd, cd bool, qclass, qtype uint16, 
 
 	for _, s := range synth {
 		a16 := [16]byte(s.AAAA.To16())
-		matched, skipOnly := false, true
+		matched, addrMatched, skipOnly := false, false, true
 		var maxATTL uint32
 		for _, p := range o.prefixes {
 			for _, a := range as {
-				if rfcEmbed(p, [4]byte(a.ip)) != a16 || tokName(a.owner, qname) != s.Hdr.Name {
+				if rfcEmbed(p, [4]byte(a.ip)) != a16 {
+					continue
+				}
+				addrMatched = true
+				if tokName(a.owner, qname) != s.Hdr.Name {
 					continue
 				}
 				matched = true
@@ -1030,8 +1034,11 @@ func judgeServe(client netip.Addr, internal, rd, cd bool, qclass, qtype uint16, 
 				}
 			}
 		}
+		if !addrMatched {
+			return fail("serve/addr/not-rfc6052-embedding-of-an-a-record", s.AAAA.String())
+		}
 		if !matched {
-			return fail("serve/addr/not-rfc6052-embedding-of-an-a-record", s.AAAA.String()+" owner "+s.Hdr.Name)
+			return fail("serve/owner/not-the-owner-of-its-a-record", s.AAAA.String()+" owner "+s.Hdr.Name)
 		}
 		if skipOnly {
 			return fail("serve/addr/excluded-ipv4-under-well-known-prefix", s.AAAA.String())
